@@ -136,11 +136,27 @@ func ruleC14(w *World, r *Report) {
 		})
 		r.check(idGuard, "R14.1", uname, tag+" guarded by FAR-id match", pos, "dominated by stored.farID == f.farID", "end marker created for a FAR whose id does not match")
 		// not preceded by an overwrite of the stored element
+		// (what counts is where the stored element is read: a copy taken before the overwrite — the range
+		// variable — still holds the old tunnel afterwards)
+		readAt := instr
+		if ld, ok := c.Common().Args[0].(*ssa.UnOp); ok && ld.Op == token.MUL {
+			if cell, isCell := ld.X.(*ssa.Alloc); isCell {
+				// the range variable spilled into a local: written once, from the element
+				if st := singleStore(cell); st != nil {
+					if l2, ok := st.Val.(*ssa.UnOp); ok && l2.Op == token.MUL {
+						ld = l2
+					}
+				}
+			}
+			if ia, ok := ld.X.(*ssa.IndexAddr); ok && strings.HasSuffix(symOf(ia.X).String(), ".fars") {
+				readAt = ld
+			}
+		}
 		var overwrite ssa.Instruction
 		allInstrs(upd, func(i ssa.Instruction) {
 			if st, ok := i.(*ssa.Store); ok {
 				if ia, ok := st.Addr.(*ssa.IndexAddr); ok && strings.HasSuffix(symOf(ia.X).String(), ".fars") {
-					if reach(upd, i, func(j ssa.Instruction) bool { return j == instr }, nil, nil) != nil {
+					if reach(upd, i, func(j ssa.Instruction) bool { return j == readAt }, nil, nil) != nil {
 						overwrite = i
 					}
 				}
@@ -205,6 +221,9 @@ func ruleC14(w *World, r *Report) {
 			falseStores = append(falseStores, st)
 		} else if c2, isCall := st.Val.(*ssa.Call); isCall && staticCallee(c2) == has2 && strings.Contains(symOf(c2.Call.Args[0]).String(), "PFCPSMReqFlags") {
 			// flag = has2ndBit(flags): sets and resets in one store
+			computedStores = append(computedStores, st)
+		} else if accumulatedFlag(parseFAR, st, has2) {
+			// the flag is collected in a local (false, set to true under the SNDEM bit) and stored once
 			computedStores = append(computedStores, st)
 		} else if carryOrOfFlag(st, has2) {
 			// flag = flag || has2ndBit(flags) (either order): the same as `if has2ndBit(flags) { flag = true }`
@@ -729,4 +748,63 @@ func carryOrOfFlag(st *ssa.Store, has2 *ssa.Function) bool {
 		}
 	}
 	return sndem
+}
+
+// accumulatedFlag: the stored value is a local that starts false and becomes true only where the SNDEM bit
+// of the PFCPSMReq-Flags octet was seen: a φ network whose leaves are the constant false and the constant
+// true, every true arriving over an edge that is reachable only through has2ndBit(flags) == true.
+func accumulatedFlag(fn *ssa.Function, st *ssa.Store, has2 *ssa.Function) bool {
+	root, ok := st.Val.(*ssa.Phi)
+	if !ok {
+		return false
+	}
+	sndemEdge := func(a, b *ssa.BasicBlock) bool {
+		v, truth, ok := boolEdge(a, b)
+		if !ok || !truth {
+			return false
+		}
+		c, isCall := v.(*ssa.Call)
+		return isCall && staticCallee(c) == has2 && strings.Contains(symOf(c.Call.Args[0]).String(), "PFCPSMReqFlags")
+	}
+	seen := map[*ssa.Phi]bool{}
+	nTrue, nFalse := 0, 0
+	var walk func(p *ssa.Phi) bool
+	walk = func(p *ssa.Phi) bool {
+		if seen[p] {
+			return true
+		}
+		seen[p] = true
+		for k, e := range p.Edges {
+			switch x := e.(type) {
+			case *ssa.Phi:
+				if !walk(x) {
+					return false
+				}
+			case *ssa.Const:
+				if x.Value == nil {
+					return false
+				}
+				switch x.Value.String() {
+				case "false":
+					nFalse++
+				case "true":
+					nTrue++
+					pred := p.Block().Preds[k]
+					if len(pred.Instrs) == 0 {
+						return false
+					}
+					last := pred.Instrs[len(pred.Instrs)-1]
+					if !onlyVia(fn, last, sndemEdge) && !sndemEdge(pred, p.Block()) {
+						return false
+					}
+				default:
+					return false
+				}
+			default:
+				return false
+			}
+		}
+		return true
+	}
+	return walk(root) && nTrue >= 1 && nFalse >= 1
 }
